@@ -22,6 +22,12 @@ import tempfile
 from harness.engine import Prop
 
 OP_OUT = 'output: _tape_recorder_operation #1.output'
+TAG = {'a': 's:t'}          # metadata field `tag` = 't' of every recording; lookups filter on it
+
+
+def user_metadata(m):
+    """the part of a recording's metadata the scripts own (the recorder's own fields hold floats / timestamps)"""
+    return {k: v for k, v in m.items() if not str(k).startswith('_tape_recorder')}
 
 
 class Box(object):
@@ -285,7 +291,7 @@ class C11(Prop):
         return {'e': 'append', 'x': x}
 
     def generate(self, rng, tier):
-        n = 400 if tier == "quick" else 12000
+        n = 400 if tier == "quick" else 9000
         return [self.gen_case(rng) for _ in range(n)]
 
     _obj = True
@@ -360,8 +366,24 @@ class C11(Prop):
         # --- the read phase
         script, nrec, nvar, nplay = [], 0, 0, 0
         recs, handed = [], []        # handed: (var, shape)
+        md_whole = {'k': 'dict', 'l': ['tag', 'user'], 'c': [TAG, md]}
+        # a lookup that scans the recording BEFORE it is fetched is how a batch is normally selected for replay
+        if rng.random() < 0.6:
+            script.append({'s': 'lookup', 'filter': rng.random() < 0.5})
         for _ in range(rng.randint(4, 12)):
             c = rng.random()
+            if recs and rng.random() < 0.08:
+                script.append({'s': 'lookup', 'filter': rng.random() < 0.6})
+            if recs and rng.random() < 0.07:
+                # mutate the stored object of ONE fetched recording through get_data_direct (only where no object is
+                # stored under two keys, see gen_case's doc)
+                key, kind, shape = rng.choice(keys)
+                shp = shape if kind == 'raw' else ({'k': 'dict', 'l': ['value'], 'c': [shape]} if kind == 'env' else
+                                                   {'k': 'dict', 'l': ['args', 'kwargs'], 'c': [{'k': 'list', 'l': [], 'c': []}, {'k': 'dict', 'l': [], 'c': []}]})
+                path, target = self.rand_path(rng, shp)
+                if objects:
+                    script.append({'s': 'direct', 'rec': rng.choice(recs), 'key': key, 'path': path,
+                                   'edit': self.rand_edit(rng, target, None)})
             if c < 0.2 or not recs:
                 nrec += 1
                 recs.append('R%d' % nrec)
@@ -389,8 +411,9 @@ class C11(Prop):
             elif c < 0.82:
                 nvar += 1
                 v = 'm%d' % nvar
-                script.append({'s': 'meta', 'rec': rng.choice(recs), 'var': v})
-                handed.append((v, md))
+                whole = rng.random() < 0.5
+                script.append({'s': 'meta', 'rec': rng.choice(recs), 'var': v, 'whole': whole})
+                handed.append((v, md_whole if whole else md))
                 embedded.add(v)     # two get_metadata() of one object are the SAME dict: never embed it (cycles / sharing)
             elif c < 0.88 and handed:
                 cand = [h[0] for h in handed if h[0] not in embedded]
@@ -408,7 +431,14 @@ class C11(Prop):
             else:
                 nplay += 1
                 ns = 'p%d.' % nplay
-                script.append({'s': 'play', 'ns': ns})
+                play = {'s': 'play', 'ns': ns}
+                if rng.random() < 0.4:
+                    # the playback function takes what it needs out of the recording's metadata
+                    play['meta_edit'] = rng.choice([{'e': 'delitem', 'key': {'k': 'tag'}}, {'e': 'delitem', 'key': {'k': 'user'}},
+                                                    {'e': 'setitem', 'key': {'k': 'tag'}, 'x': {'tree': {'a': 's:other'}}},
+                                                    {'e': 'setitem', 'key': {'k': 'user'}, 'x': {'tree': {'k': 'list', 'l': [], 'c': []}}}])
+                    # (not `clear`: play() itself reads the duration from the metadata of the object it handed out)
+                script.append(play)
                 recs.append(ns + 'orig')
                 for st in body:
                     if st['s'] == 'in':
@@ -434,8 +464,11 @@ class C11(Prop):
         for key, kind, shape in keys:
             nvar += 1
             script.append({'s': 'get', 'rec': 'Rlast', 'key': key, 'via': 'getitem', 'sub': [], 'var': 'f%d' % nvar})
-        script.append({'s': 'meta', 'rec': 'Rlast', 'var': 'mlast'})
+        script.append({'s': 'get', 'rec': 'Rlast', 'key': 'fresh', 'via': 'get_data', 'sub': [], 'var': 'ffresh'})
+        script.append({'s': 'meta', 'rec': 'Rlast', 'var': 'mlast', 'whole': True})
+        script.append({'s': 'lookup', 'filter': True})
         script.append({'s': 'play', 'ns': 'plast.', 'clean': True})
+        script.append({'s': 'lookup', 'filter': False})
         return {'cassette': rng.choice(['mem', 'file', 's3']), 'copy': copy, 'body': body, 'md': md, 'script': script}
 
     def maybe_mut(self, rng, body, shapes, embedded, v, when_pool, p=0.6):
@@ -481,7 +514,7 @@ class C11(Prop):
                 obs.append({'tag': tag, 'val': val})
 
             class Op(object):
-                @tr.operation(metadata_extractor=lambda self: {'user': env['md']})
+                @tr.operation(metadata_extractor=lambda self: {'tag': 't', 'user': env['md']})
                 def run(self):
                     variables, ns, phase = env['vars'], env['ns'], env['phase']
                     for st in body:
@@ -553,6 +586,9 @@ class C11(Prop):
             setkeys = set()                   # (rec name, key) that were overwritten by the client
             for st in case['script']:
                 s = st['s']
+                if s in ('get', 'meta', 'set', 'direct') and recs.get(st['rec']) is None:
+                    emit(['skipped', s], '<no recording object: the replay that should have produced it failed>')
+                    continue
                 if s == 'fetch':
                     recs[st['rec']] = cassette.get_recording(rid)
                 elif s == 'get':
@@ -570,8 +606,34 @@ class C11(Prop):
                          from_py(v) if ok else '<none>')
                 elif s == 'meta':
                     m = recs[st['rec']].get_metadata()
-                    variables[st['var']] = m.get('user')
-                    emit(['meta', st['rec']], from_py(m.get('user')) if 'user' in m else '<none>')
+                    whole = from_py(user_metadata(m))
+                    if st.get('whole'):
+                        variables[st['var']] = m
+                        emit(['meta', st['rec']], whole)
+                    else:
+                        if 'user' in m:
+                            variables[st['var']] = m['user']
+                        emit(['meta', st['rec']], from_py(m['user']) if 'user' in m else '<none>')
+                    obs[-1]['whole'] = whole
+                elif s == 'lookup':
+                    try:
+                        found = list(cassette.iter_recording_ids('Op', metadata={'tag': 't'} if st['filter'] else None))
+                        emit(['lookup', st['filter']], TAG if found == [rid] else '<found %d recordings>' % len(found))
+                    except Exception as ex:
+                        emit(['lookup', st['filter']], 'raised ' + type(ex).__name__)
+                elif s == 'direct':
+                    rec = recs[st['rec']]
+                    try:
+                        stored = rec.get_data_direct(st['key'])
+                    except Exception as ex:
+                        emit(['get', st['rec'], st['key'], 'error'], type(ex).__name__)
+                        emit(['mut', 'direct'], False)
+                        continue
+                    emit(['get', st['rec'], st['key'], 'whole',
+                          'overwritten' if (id(rec), st['key']) in setkeys else 'stored'], from_py(stored))
+                    variables['$direct'] = stored
+                    emit(['mut', 'direct'], apply_edit(variables, {'var': '$direct', 'path': st['path'], 'edit': st['edit']}))
+                    setkeys.add((id(rec), st['key']))
                 elif s == 'set':
                     rec = recs[st['rec']]
                     if st['var'] in variables:
@@ -586,8 +648,22 @@ class C11(Prop):
                 elif s == 'play':
                     # 'repc': a replay whose replayed code mutates nothing
                     env['phase'], env['ns'] = ('repc' if st.get('clean') else 'rep'), st['ns']
+
+                    def playback_function(recording, st=st):
+                        if st.get('meta_edit'):
+                            m = recording.get_metadata()
+                            emit(['meta', st['ns'] + 'orig'], from_py(user_metadata(m)))
+                            obs[-1]['whole'] = obs[-1]['val']
+                            variables[st['ns'] + '$m'] = m
+                            emit(['mut', 'playmeta'], apply_edit(variables, {'var': st['ns'] + '$m', 'path': [],
+                                                                              'edit': st['meta_edit']}))
+                        return Op().run()
                     try:
-                        pb = tr.play(rid, lambda recording: Op().run())
+                        pb = tr.play(rid, playback_function)
+                    except Exception as ex:      # the property says a replay of a stored recording keeps working
+                        emit(['play-error', st['ns']], 'replay raised ' + type(ex).__name__)
+                        recs[st['ns'] + 'orig'] = None
+                        continue
                     finally:
                         env['phase'] = 'rec'
                     recs[st['ns'] + 'orig'] = pb.original_recording
@@ -645,7 +721,8 @@ class C11(Prop):
         self.compile_body(case, 'rec', '', steps)
         steps.append({'op': 'new', 'tree': {'a': 's:done'}, 'var': '$ret'})
         steps.append({'op': 'recordOut', 'key': OP_OUT, 'args': ['$ret'], 'kwl': [], 'kwv': []})
-        steps.append({'op': 'save', 'md': {'k': 'dict', 'l': ['user'], 'c': [case['md']]}})
+        steps.append({'op': 'save', 'md': {'k': 'dict', 'l': ['tag', 'user'], 'c': [TAG, case['md']]}})
+        nlook = 0
         out_keys = sorted([out_key(st['alias'], st['n']) for st in case['body'] if st['s'] == 'out'] + [OP_OUT])
         for st in case['script']:
             s = st['s']
@@ -654,7 +731,21 @@ class C11(Prop):
             elif s == 'get':
                 steps.append({'op': 'get', 'rec': st['rec'], 'key': st['key'], 'sub': st['sub'], 'var': st['var']})
             elif s == 'meta':
-                steps.append({'op': 'meta', 'rec': st['rec'], 'sub': [{'k': 'user'}], 'var': st['var']})
+                steps.append({'op': 'meta', 'rec': st['rec'], 'sub': [] if st.get('whole') else [{'k': 'user'}],
+                              'var': st['var']})
+            elif s == 'lookup':
+                # a lookup decodes the stored text and matches its metadata: what it sees is the tag of a fresh decode
+                nlook += 1
+                steps.append({'op': 'fetch', 'id': 0, 'rec': '$lookup%d' % nlook})
+                steps.append({'op': 'meta', 'rec': '$lookup%d' % nlook, 'sub': [{'k': 'tag'}], 'var': '$tag%d' % nlook})
+            elif s == 'direct':
+                # in-place mutation of the stored object of ONE fetched recording: observably (no object is stored under
+                # two keys in these cases) the same as read a copy, mutate it, put it back on that object
+                nlook += 1
+                v = '$direct%d' % nlook
+                steps.append({'op': 'get', 'rec': st['rec'], 'key': st['key'], 'sub': [], 'var': v})
+                steps.append({'op': 'mut', 'var': v, 'path': st['path'], 'edit': st['edit']})
+                steps.append({'op': 'set', 'rec': st['rec'], 'key': st['key'], 'var': v})
             elif s == 'set':
                 steps.append({'op': 'set', 'rec': st['rec'], 'key': st['key'], 'var': st['var']})
             elif s == 'new':
@@ -666,6 +757,9 @@ class C11(Prop):
             elif s == 'play':
                 ns = st['ns']
                 steps.append({'op': 'fetch', 'id': 0, 'rec': ns + 'orig'})
+                if st.get('meta_edit'):
+                    steps.append({'op': 'meta', 'rec': ns + 'orig', 'sub': [], 'var': ns + '$m'})
+                    steps.append({'op': 'mut', 'var': ns + '$m', 'path': [], 'edit': st['meta_edit']})
                 self.compile_body(case, 'repc' if st.get('clean') else 'rep', ns, steps)
                 for i, k in enumerate(out_keys):
                     steps.append({'op': 'get', 'rec': ns + 'orig', 'key': k, 'sub': [], 'var': ns + 'ro%d' % i})
@@ -711,7 +805,12 @@ class C11(Prop):
             elif tag[0] == 'meta':
                 # the FIRST get_metadata() of each fetched object; later ones on the same object are the live dict (no claim)
                 if tag[1] not in metas:
-                    metas[tag[1]] = val
+                    metas[tag[1]] = o.get('whole', val)
+            elif tag[0] == 'lookup' and val != TAG:
+                fails.append('independence: a later lookup%s no longer finds the stored recording (%s)'
+                             % (' by recorded metadata' if tag[1] else '', val))
+            elif tag[0] == 'play-error':
+                fails.append('independence: a later replay of the stored recording failed: %s' % val)
         if len({json.dumps(v, sort_keys=True) for v in metas.values()}) > 1:
             fails.append('independence: metadata of different fetches differs: %s' % json.dumps(metas, sort_keys=True))
         if case['copy']:
@@ -765,8 +864,10 @@ class C11(Prop):
                 out.append('edit:' + st['edit']['e'])
                 if 'x' in st['edit'] and 'var' in st['edit']['x']:
                     out.append('edit:embeds-existing-object')
-            elif st['s'] in ('set', 'play', 'fetch'):
+            elif st['s'] in ('set', 'play', 'fetch', 'lookup', 'direct'):
                 out.append('step:' + st['s'])
+                if st.get('meta_edit'):
+                    out.append('step:play-function-edits-metadata')
         return out
 
     def sample_repr(self, case):
@@ -775,7 +876,7 @@ class C11(Prop):
     def shrink(self, case):
         sc = case['script']
         for i in range(len(sc)):
-            if sc[i]['s'] in ('mut', 'set', 'new', 'meta', 'obs') or (sc[i]['s'] == 'get'):
+            if sc[i]['s'] in ('mut', 'set', 'new', 'meta', 'obs', 'lookup', 'direct') or (sc[i]['s'] == 'get'):
                 used = sc[i].get('var')
                 rest = sc[:i] + sc[i + 1:]
                 if sc[i]['s'] in ('get', 'new', 'meta') and any(self.uses(s, used) for s in rest):
